@@ -1004,6 +1004,15 @@ def laws(W, rec):
                     want_.append(str(v))
                 got_.append(store(v).get("x"))
             law("C08/Headers:stored-text-is-not-str-of-the-value", got_ == want_, f"{nm_}: values {values!r} stored one after the other read back as {got_!r}, str() gives {want_!r}", (nm_, repr(values)))
+        # what setdefault hands back is what the key holds afterwards (the stored text), for absent and present keys
+        for v in values:
+            if isinstance(v, Ticker):
+                continue
+            h_ = DS.Headers([("Other", "o")])
+            r1 = h_.setdefault("Content-Length", v)
+            r2 = h_.setdefault("content-length", "later")
+            law("C08/Headers:setdefault-returns-something-else-than-the-stored-value", r1 == h_["Content-Length"] == str(v) and type(r1) is str and r2 == str(v),
+                f"Headers.setdefault('Content-Length', {v!r}) returned {r1!r}, the key holds {h_['Content-Length']!r}; a second setdefault returned {r2!r}", ("setdefault-return", repr(v)))
     # pickles travel: a container hashed and pickled here, loaded by an interpreter with another hash seed, is equal to
     # one built there and hashes like it (sessions / caches shared between worker processes)
     import os
